@@ -198,7 +198,7 @@ func C01(c *Ctx) *kf.Report {
 	}
 	sort.Strings(corpus)
 	perFile := c.Pick(12, 400)
-	nCorpusMut := 0
+	nCorpusMut, nCorpusCRLF := 0, 0
 	for _, f := range corpus {
 		b, err := os.ReadFile(f)
 		if err != nil || len(b) > 60000 {
@@ -206,20 +206,29 @@ func C01(c *Ctx) *kf.Report {
 		}
 		tmpl := strings.HasSuffix(f, ".php")
 		rel := strings.TrimPrefix(f, "/repo/")
-		for mi, m := range c01Mutants(string(b), tmpl, func(n int) []int {
-			if n <= perFile {
-				idx := make([]int, n)
-				for i := range idx {
-					idx[i] = i
+		addMutants := func(family, src string, k int) int {
+			n := 0
+			for mi, m := range c01Mutants(src, tmpl, func(n int) []int {
+				if n <= k {
+					idx := make([]int, n)
+					for i := range idx {
+						idx[i] = i
+					}
+					return idx
 				}
+				idx := rng.Perm(n)[:k]
+				sort.Ints(idx)
 				return idx
+			}) {
+				inputs = append(inputs, c01Input{id: family, detail: fmt.Sprintf("%s #%d (%s)", rel, mi/3, []string{"prefix", "delete", "duplicate"}[mi%3]), src: m, template: tmpl})
+				n++
 			}
-			idx := rng.Perm(n)[:perFile]
-			sort.Ints(idx)
-			return idx
-		}) {
-			inputs = append(inputs, c01Input{id: "corpus-mutant", detail: fmt.Sprintf("%s #%d (%s)", rel, mi/3, []string{"prefix", "delete", "duplicate"}[mi%3]), src: m, template: tmpl})
-			nCorpusMut++
+			return n
+		}
+		nCorpusMut += addMutants("corpus-mutant", string(b), perFile)
+		// the same file with CRLF line ends (the corpus has none): line accounting of diagnostics, line-oriented constructs
+		if !bytes.Contains(b, []byte("\r")) {
+			nCorpusCRLF += addMutants("corpus-mutant-crlf", strings.ReplaceAll(string(b), "\n", "\r\n"), (perFile+2)/3)
 		}
 	}
 	// generated programs: prefixes and mutants, run when accepted
@@ -348,6 +357,7 @@ func C01(c *Ctx) *kf.Report {
 		Ev    []c01Event `json:"ev"`
 	}
 	sites := map[int]string{}
+	diagOwn, diagElsewhere, diagNoPos := 0, 0, 0
 	mk := func(i int) trace {
 		in, r := inputs[i], rs[i]
 		t := trace{ID: fmt.Sprint(i), Len: len(in.src), Lines: c01Lines(in.src), Ev: []c01Event{}}
@@ -387,10 +397,16 @@ func C01(c *Ctx) *kf.Report {
 			t.Ev = append(t.Ev, c01Event{"e": "crash", "where": where, "what": tailStr(r.Panic, 100)})
 			return t
 		case r.ParseErr != "":
-			// "own": the diagnostic names the input itself (it may also name a file the parser loaded on the way)
+			// "own": the diagnostic's position refers to the input itself (it may also refer to a file the parser
+			// loaded on the way, or -- for an error raised by the host -- to the Go source line that raised it)
 			own := 0
-			if strings.Contains(r.ParseErr, "verif-") {
+			if r.File != "" && r.ParseSrc == r.File {
 				own = 1
+				diagOwn++
+			} else if r.ParseSrc == "" {
+				diagNoPos++
+			} else {
+				diagElsewhere++
 			}
 			t.Ev = append(t.Ev, c01Event{"e": "parse_err", "line": r.ParseLine, "col": r.ParseCol, "own": own})
 			return t
@@ -467,7 +483,7 @@ func C01(c *Ctx) *kf.Report {
 				id = fmt.Sprintf("C01/%s/%s/shape=%s", strings.ReplaceAll(r.Why, " ", "-"), in.id, c01Shape(in))
 			}
 			rep.Add(kf.Mismatch{ID: id, Expected: "a program or a positioned diagnostic (and a run that ends in output, a script error or exit)",
-				Observed: map[string]any{"rejected_at_event": r.At, "why": r.Why, "event": r.Event, "phase": r.Phase, "input": in.detail, "family": in.id},
+				Observed: map[string]any{"rejected_at_event": r.At, "why": r.Why, "event": r.Event, "phase": r.Phase, "input": in.detail, "family": in.id, "diagnostic": tailStr(rs[i].ParseErr, 300), "diagnostic_file": rs[i].ParseSrc, "parsed_as": rs[i].File},
 				ObsKey:   key, Input: map[string]any{"b64": jobs[i].B64, "template": in.template, "source": tailStr(in.src, 300)}})
 		}
 	}
@@ -475,16 +491,20 @@ func C01(c *Ctx) *kf.Report {
 	rep.Coverage["traces_validated_against_impl"] = len(inputs)
 	rep.Coverage["traces_accepted"] = accepted
 	rep.Coverage["traces_rejected"] = rejected
+	rep.Coverage["diagnostics_positioned_in_the_input"] = diagOwn
+	rep.Coverage["diagnostics_positioned_in_another_file_or_host_source"] = diagElsewhere
+	rep.Coverage["diagnostics_without_source_file"] = diagNoPos
 	rep.Coverage["inputs_sourcegen"] = nSourceGen
 	rep.Coverage["inputs_sourcegen_long"] = nLong
 	rep.Coverage["inputs_corpus_mutants"] = nCorpusMut
+	rep.Coverage["inputs_corpus_mutants_crlf"] = nCorpusCRLF
 	rep.Coverage["inputs_generated_program_mutants"] = nGenMut
 	rep.Coverage["inputs_byte_mutants"] = len(inputs) - base
 	rep.Coverage["programs_run_after_accept"] = len(runIdx)
 	rep.Coverage["final_modes_of_sourcegen_inputs"] = finalModes
 	rep.Coverage["sourcegen_inputs_ending_with_open_brackets"] = openEnded
 	rep.Coverage["outcomes"] = outcome
-	rep.Coverage["distinct_nontrivial"] = nSourceGen + nLong + nCorpusMut + nGenMut
+	rep.Coverage["distinct_nontrivial"] = nSourceGen + nLong + nCorpusMut + nCorpusCRLF + nGenMut
 	rep.Coverage["exhaustive"] = false
 	rep.Coverage["rule"] = "SourceGen.tla: every fragment sequence up to length 3 over the 37-fragment core alphabet (thorough: 65 fragments) in both lexing modes, plus TLC -simulate walks up to 8 fragments; corpus: token-boundary prefixes, single-token deletions and duplications of the 331 corpus files at seeded positions (quick 12 per file, thorough 400 = nearly all); the same mutations of generated side-effect-free programs, which are also run when accepted; seeded byte-level mutants; non-trivial = structured inputs (byte mutants not counted)"
 	if len(inputs) > 3 {
